@@ -39,6 +39,16 @@ func installSQLSeam() {
 	verifhook.SQLDriver = simDriverName
 }
 
+// sqlFault, if set (harness step "sql_fail" at a sql:* site), is returned by the
+// statement that is about to run instead of executing it.
+var sqlFault error
+
+func takeSQLFault() error {
+	err := sqlFault
+	sqlFault = nil
+	return err
+}
+
 func uninstallSQLSeam() { verifhook.SQLDriver = "sqlite" }
 
 func sqlSite(query string) string {
@@ -117,6 +127,9 @@ func (c *seamConn) ExecContext(ctx context.Context, q string, args []driver.Name
 		return nil, driver.ErrSkip
 	}
 	verifhook.Yield(sqlSite(q))
+	if err := takeSQLFault(); err != nil {
+		return nil, err
+	}
 	return e.ExecContext(ctx, q, args)
 }
 
@@ -126,6 +139,9 @@ func (c *seamConn) QueryContext(ctx context.Context, q string, args []driver.Nam
 		return nil, driver.ErrSkip
 	}
 	verifhook.Yield(sqlSite(q))
+	if err := takeSQLFault(); err != nil {
+		return nil, err
+	}
 	return e.QueryContext(ctx, q, args)
 }
 
